@@ -51,6 +51,8 @@ type G struct {
 	bg     bool // excluded from leak/deadlock accounting (declared background)
 	proc   int  // simulated process id (inherited by children)
 
+	stalledUntil time.Duration // fault: not runnable before this fake time
+
 	wait     int
 	waitDesc string
 	probe    func() bool
@@ -122,6 +124,39 @@ type Sim struct {
 
 	fdPolls int
 	netst   *netState
+
+	stalls      []*StallRule
+	StallsFired int
+}
+
+// StallRule is a "slow party" fault: the Nth time (counting from 0) a
+// goroutine is about to be released from a scheduling point whose site
+// contains Site, it is descheduled for Dur of fake time instead.
+type StallRule struct {
+	Site string
+	Nth  int
+	Dur  time.Duration
+	done bool
+}
+
+// AddStall registers a stall fault.
+func (s *Sim) AddStall(site string, nth int, d time.Duration) {
+	s.stalls = append(s.stalls, &StallRule{Site: site, Nth: nth, Dur: d})
+}
+
+func (s *Sim) stallFor(g *G) time.Duration {
+	for _, r := range s.stalls {
+		if r.done || !strings.Contains(g.site, r.Site) {
+			continue
+		}
+		if r.Nth > 0 {
+			r.Nth--
+			continue
+		}
+		r.done = true
+		return r.Dur
+	}
+	return 0
 }
 
 var cur *Sim
@@ -393,6 +428,7 @@ func (s *Sim) Run() *Verdict {
 		// Collect the ready set.
 		s.mu.Lock()
 		var ready []*G
+		var nextStall time.Duration
 		live, liveFG := 0, 0
 		for _, g := range s.all {
 			if g.state == stDone {
@@ -408,6 +444,17 @@ func (s *Sim) Run() *Verdict {
 			if g.wait != waitNone && !g.probe() {
 				continue
 			}
+			if g.stalledUntil > 0 {
+				// a stalled goroutine (simulated descheduling) is not runnable
+				// until the fake clock reaches the end of its stall
+				if now := s.Now(); g.stalledUntil > now {
+					if nextStall == 0 || g.stalledUntil < nextStall {
+						nextStall = g.stalledUntil
+					}
+					continue
+				}
+				g.stalledUntil = 0
+			}
 			ready = append(ready, g)
 		}
 		s.mu.Unlock()
@@ -415,13 +462,21 @@ func (s *Sim) Run() *Verdict {
 			return nil
 		}
 		if len(ready) == 0 {
-			// Nothing runnable: let the fake clock advance to the next timer.
+			// Nothing runnable: let the fake clock advance to the next timer
+			// (or to the end of the earliest stall).
 			idle++
-			t := time.NewTimer(s.Horizon)
+			wait := s.Horizon
+			if nextStall > 0 {
+				wait = nextStall - s.Now()
+			}
+			t := time.NewTimer(wait)
 			select {
 			case <-s.wake:
 				t.Stop()
 			case <-t.C:
+				if nextStall > 0 {
+					continue
+				}
 				v := &Verdict{Class: "deadlock", Detail: s.describeLive(), Step: s.Step}
 				s.fail(v)
 				return v
@@ -444,6 +499,14 @@ func (s *Sim) Run() *Verdict {
 			s.Choices++
 		}
 		g := ready[idx]
+		if d := s.stallFor(g); d > 0 {
+			// Fault: the chosen goroutine is descheduled for d of fake time
+			// instead of running now (a slow or preempted party).
+			g.stalledUntil = s.Now() + d
+			s.StallsFired++
+			s.Note("fault:stall " + g.ID + " at " + g.site + " for " + d.String())
+			continue
+		}
 		s.record(g, len(ready))
 		s.Step++
 		if s.Step > s.MaxSteps {
